@@ -12,7 +12,8 @@ pub fn run(ctx: &Ctx) -> Report {
     let id = "blowfish::Blowfish(bcrypt)";
     let mut rng = ctx.rng("bcrypt");
     let nhist = ctx.budget(800, 8000, 2);
-    let probes: Vec<[u32; 2]> = (0..32).map(|i| [0x01234567u32.wrapping_mul(i * 2 + 1), 0x89abcdefu32.rotate_left(i) ^ i]).collect();
+    let light = cfg!(miri) || ctx.light();
+    let probes: Vec<[u32; 2]> = (0..(if light { 4 } else { 32 })).map(|i| [0x01234567u32.wrapping_mul(i * 2 + 1), 0x89abcdefu32.rotate_left(i) ^ i]).collect();
     let fingerprint_real = |s: &Blowfish| -> Vec<[u32; 2]> { probes.iter().map(|p| s.bc_encrypt(*p)).collect() };
     let fingerprint_model = |s: &M::Blowfish| -> Vec<[u32; 2]> { probes.iter().map(|p| s.encrypt_words(*p)).collect() };
     let lens = |rng: &mut crate::rng::Rng| -> usize {
@@ -24,10 +25,10 @@ pub fn run(ctx: &Ctx) -> Report {
     for h in 0..nhist {
         let mut real = Blowfish::bc_init_state();
         let mut model = M::Blowfish::init_state();
-        let steps = if h % 8 == 0 { 40 + rng.below(26) } else { 2 + rng.below(8) };
+        let steps = if light { 2 + rng.below(3) } else if h % 8 == 0 { 40 + rng.below(26) } else { 2 + rng.below(8) };
         let mut trace: Vec<String> = Vec::new();
         for st in 0..steps {
-            let op = rng.below(10);
+            let op = if light && h == 0 && st == 0 { 5 } else { rng.below(10) };
             let what;
             if op < 4 {
                 let kl = lens(&mut rng);
@@ -38,7 +39,11 @@ pub fn run(ctx: &Ctx) -> Report {
                 what = format!("bc_expand_key(len {})", kl);
                 trace.push(format!("E:{}", gen::hex(&key)));
             } else if op < 8 {
-                let (sl, kl) = (lens(&mut rng), lens(&mut rng));
+                let (sl, mut kl) = (lens(&mut rng), lens(&mut rng));
+                if light && h == 0 && st == 0 {
+                    // interpreter slice: a key that covers the whole P-array without wrapping, every run
+                    kl = 72 + (ctx.seed as usize % 3);
+                }
                 let kc = gen::pick_class(&mut rng, h + st as u64);
                 let salt = gen::gen(&mut rng, sl, 0);
                 let key = gen::gen(&mut rng, kl, kc);
@@ -78,7 +83,7 @@ pub fn run(ctx: &Ctx) -> Report {
         rep.bump(id, "steps", steps as i64);
     }
     // relations: plain expansion == salted with an all-zero salt of any length == ordinary keying
-    for i in 0..ctx.budget(1000, 10000, 4) {
+    for i in 0..(if light { 1 } else { ctx.budget(1000, 10000, 4) }) {
         let kl = 4 + rng.below(53);
         let kc = gen::pick_class(&mut rng, i);
         let key = gen::gen(&mut rng, kl, kc);
@@ -109,7 +114,7 @@ pub fn run(ctx: &Ctx) -> Report {
         }
     }
     // end to end: bcrypt assembled from the crate's primitives vs libxcrypt
-    let ncrypt = ctx.budget(40, 600, 1);
+    let ncrypt = if light { 0 } else { ctx.budget(40, 600, 1) };
     let mut foreign = 0;
     for i in 0..ncrypt {
         let cost = 4 + rng.below(if ctx.tier == Tier::Quick { 2 } else { 4 }) as u32;
